@@ -5,6 +5,7 @@ import RpcVerif.Model.PoolRun
 import RpcVerif.Model.ServerRun
 import RpcVerif.Model.Spec
 import RpcVerif.Model.Framing
+import RpcVerif.Model.RouterRun
 /-
   rpcmodel — the executable side of the correspondence. Reads one operation per line on
   stdin, prints one canonical result line per operation. Imports Model/ only (core Lean).
@@ -112,4 +113,5 @@ def main (args : List String) : IO UInt32 := do
   | ["server"] => loopSt stdin stdout RpcVerif.S.serverStep none; return 0
   | ["e2e"] => loop stdin stdout RpcVerif.Spec.specStep; return 0
   | ["frame"] => loop stdin stdout frameStep; return 0
+  | ["router"] => loopSt stdin stdout RpcVerif.R.routerStep none; return 0
   | _ => IO.eprintln "usage: rpcmodel wire"; return 2
